@@ -157,6 +157,42 @@ type HTTPCase struct {
 	// gun option `redirect: true`: the gun follows redirects (default: it does not). Entries whose behaviour has a
 	// Redir are answered with redirects in either case.
 	Redirect bool `json:"redirect,omitempty"`
+	// gun option `httptrace` (see HTTPTrace)
+	HTTPTrace HTTPTrace `json:"httptrace"`
+}
+
+// HTTPTrace is the option `httptrace` of the http guns (http, http2, connect and both scenario guns; documented in
+// docs/eng/http-generator.md): `dump: true` accounts the bytes of the dumped request and response in the sample,
+// `trace: true` its connect / send / latency stages. Both are off by default. They only add figures to the sample, so
+// every oracle of this package holds for each of the four combinations - in particular for exchanges that end without
+// any response (refused, closed, timed out, failed handshake), where there is nothing to dump or to time.
+type HTTPTrace struct {
+	Dump  bool `json:"dump,omitempty"`
+	Trace bool `json:"trace,omitempty"`
+}
+
+func genHTTPTrace(t *rapid.T) HTTPTrace {
+	return HTTPTrace{Dump: rapid.Bool().Draw(t, "httptraceDump"), Trace: rapid.Bool().Draw(t, "httptraceTrace")}
+}
+
+// apply writes the option into a gun config; with both off half of the time nothing is written (the default)
+func (h HTTPTrace) apply(gun map[string]any) {
+	if h.Dump || h.Trace {
+		gun["httptrace"] = map[string]any{"dump": h.Dump, "trace": h.Trace}
+	}
+}
+
+// classes records the combination and whether it met an exchange that ended without a response (a sample with a net
+// error and no status).
+func (h HTTPTrace) classes(o *vf.Obs, lines []line) {
+	noResp := false
+	for _, l := range lines {
+		noResp = noResp || (l.proto == 0 && l.net != 0)
+	}
+	o.ClassIf(h.Dump, "httptrace_dump")
+	o.ClassIf(h.Trace, "httptrace_trace")
+	o.ClassIf(h.Dump && noResp, "httptrace_dump_no_response")
+	o.ClassIf(h.Trace && noResp, "httptrace_trace_no_response")
 }
 
 func genHTTP(t *rapid.T) HTTPCase {
@@ -192,6 +228,7 @@ func genHTTP(t *rapid.T) HTTPCase {
 			}
 		}
 	}
+	c.HTTPTrace = genHTTPTrace(t)
 	return c
 }
 
@@ -295,10 +332,12 @@ func checkHTTP(c HTTPCase, o *vf.Obs) error {
 	defer pand.Remove(name)
 	out := pand.TempName("c19", ".phout")
 	defer pand.Remove(out)
+	gun := map[string]any{"type": gunType(c.Connect), "target": tg.Addr(), "response-header-timeout": "400ms",
+		"disable-keep-alives": !c.KeepAlive, "connect-ssl": c.ConnectSSL, "redirect": c.Redirect}
+	c.HTTPTrace.apply(gun)
 	pool := map[string]any{
-		"id": "p",
-		"gun": map[string]any{"type": gunType(c.Connect), "target": tg.Addr(), "response-header-timeout": "400ms",
-			"disable-keep-alives": !c.KeepAlive, "connect-ssl": c.ConnectSSL, "redirect": c.Redirect},
+		"id":      "p",
+		"gun":     gun,
 		"ammo":    map[string]any{"type": "uri", "file": name, "passes": 1},
 		"result":  map[string]any{"type": "phout", "destination": out},
 		"rps":     map[string]any{"type": "once", "times": len(c.Behs) + 5},
@@ -313,7 +352,7 @@ func checkHTTP(c HTTPCase, o *vf.Obs) error {
 		err = fmt.Errorf("the run was aborted: %v", runErr)
 	}
 	if err != nil {
-		return fmt.Errorf("%v (behaviours %s)", err, behsString(c.Behs))
+		return fmt.Errorf("%v (%s gun, httptrace %+v, behaviours %s)", err, gunType(c.Connect), c.HTTPTrace, behsString(c.Behs))
 	}
 	lines, data, err := readPhout(out)
 	if err != nil {
@@ -378,6 +417,7 @@ func checkHTTP(c HTTPCase, o *vf.Obs) error {
 	o.ClassIf(refused > 0 && c.Connect, "connect_gun_refused")
 	o.ClassIf(refused > 0 && c.ConnectSSL, "connect_ssl_refused")
 	o.ClassIf(c.Redirect, "redirect_option_on")
+	c.HTTPTrace.classes(o, lines)
 	rs.classes(o, gunType(c.Connect)+"_gun")
 	if mis > 0 && goodAfterMis {
 		o.NonTrivial()
